@@ -139,6 +139,8 @@ class World:
         self.shared = {}                       # scratch shared by the ranks' shims (e.g. h5 files)
         perm = list(range(nranks))
         self._shuffle(perm)
+        if sched.get('priority_perm') is not None and len(sched['priority_perm']) == nranks:
+            perm = [int(x) for x in sched['priority_perm']]     # systematic arrival-order sweep
         self.tiebreak = perm
         self.tb_index = {r: i for i, r in enumerate(perm)}
         self.speed = [1.0] * nranks
